@@ -318,7 +318,7 @@ def configs_for(ctx, rows, mp_ok, small):
 def gen_cases(ctx, mp_ok):
     r = ctx.rng
     targets = fixed_targets()
-    n_rand = ctx.n(24, 150)
+    n_rand = ctx.n(18, 150)
     targets += [random_target(r) for _ in range(n_rand)]
     cases = []
     for ti, tgt in enumerate(targets):
